@@ -365,6 +365,10 @@ def Spec.sem : Sem where
   compare := Spec.compare
   round := Spec.round
 
+/-- the specification with the behaviour of known finding KF-round-negative-tie swapped in
+    (used only to classify deviations; see known_findings.json) -/
+def Spec.semKF : Sem := { Spec.sem with round := Model.round }
+
 /-- `exec.Exec(cursor, expr, settings…)`: context node `start`, position 1, size 1 -/
 def Model.run (a : Arena) (env : Env) (start : Nat) (e : Expr) : Except Err Val :=
   eval Model.sem e { a := a, env := env, result := .nodes [start], pos := 0, size := 1 }
@@ -372,4 +376,9 @@ def Model.run (a : Arena) (env : Env) (start : Nat) (e : Expr) : Except Err Val 
 def Spec.run (a : Arena) (env : Env) (start : Nat) (e : Expr) : Except Err Val :=
   eval Spec.sem e { a := a, env := env, result := .nodes [start], pos := 0, size := 1 }
 
+end Xsel
+
+namespace Xsel
+def Spec.runKF (a : Arena) (env : Env) (start : Nat) (e : Expr) : Except Err Val :=
+  eval Spec.semKF e { a := a, env := env, result := .nodes [start], pos := 0, size := 1 }
 end Xsel
